@@ -373,8 +373,8 @@ def build_stream(run, n_groups, seed_offset, k_adv, judge=True):
             for tag, x, obs in rec.inputs:
                 if not (tag.startswith("bad-instance") or tag == "valid" or rng.random() < 0.12):
                     continue
-                for entry in entries_for(x):
-                    r = call_entry(entry, rec.pytype, x)
+                for ei, entry in enumerate(entries_for(x)):
+                    r = call_entry(entry, rec.pytype, x, clear=(ei == 0))     # one cold start per input
                     st["entry_calls"][entry] = st["entry_calls"].get(entry, 0) + 1
                     st["judged"] += 1
                     if r[0] != "ok":
@@ -604,7 +604,7 @@ def evaluate(run, st, tag, verdict_limit):
 
 def ensure_stream(run):
     if "main" not in _STATE:
-        n = run.budget(40, 520)
+        n = run.budget(40, 420)
         _STATE["main"] = build_stream(run, n, seed_offset=3, k_adv=run.budget(4, 6))
     return _STATE["main"]
 
@@ -662,11 +662,12 @@ def entries_for(x):
     return out
 
 
-def call_entry(entry, t, x):
+def call_entry(entry, t, x, clear=True):
     """-> ('ok', result) | ('raise', text)"""
     import typelib
     from typelib import unmarshals
-    impl.clear_caches()
+    if clear:
+        impl.clear_caches()
     try:
         with warnings.catch_warnings():
             warnings.simplefilter("ignore")
